@@ -701,7 +701,8 @@ def _ref_run(case, T):
     kinds = KINDS[case['fmt']]
     read_ok = err == 0
     if read_ok and rows:
-        if F_EMPTYID in T and any(k == 'D' and all(r[j] == '' for r in rows) for j, k in enumerate(kinds)):
+        if F_EMPTYID in T and case['fmt'] not in ('fasta', 'fastq') and \
+                any(k == 'D' and all(r[j] == '' for r in rows) for j, k in enumerate(kinds)):
             read_ok = False
         if case['fmt'] == 'fasta' and F_FASTA in T and any(len(r[1]) == 0 for r in rows):
             read_ok = False
